@@ -150,6 +150,10 @@ func (c *codecRun) sample(kind string, v any) {
 	}
 }
 
+// big: thorough-tier generator widths. Search runs (-search) are repeated by the runner with fresh seeds inside a
+// time budget, so each one uses the quick widths.
+func (c *codecRun) big() bool { return c.o.Tier == "thorough" && !c.search }
+
 func (c *codecRun) line(format string, a ...any) {
 	if c.search || c.t == nil {
 		return
@@ -488,7 +492,7 @@ var codecTsValues = []int64{0, 1, 1700000000000, 1<<53 + 1, math.MaxInt64 - 1, m
 var codecTsOutside = []int64{-1, math.MinInt64, -1700000000000}
 
 func (c *codecRun) entries() {
-	thorough := c.o.Tier == "thorough" || c.search
+	thorough := c.big()
 	lens := []int{0, 1, 2, 31, 32, 33, 255, 256, 1000, 65535, 65536}
 	fpn := []int{0, 1, 2, 3, 16, 255, 2046, 2047}
 	rest := func() []byte {
@@ -631,7 +635,7 @@ func codecLengthFieldOffsets(enc []byte) [][2]int {
 }
 
 func (c *codecRun) malformed() {
-	thorough := c.o.Tier == "thorough" || c.search
+	thorough := c.big()
 	bases := 24
 	if thorough {
 		bases = 200
@@ -857,7 +861,7 @@ func (c *codecRun) extensions() {
 		c.checkIndex(1<<k + 1)
 	}
 	n := 300
-	if c.o.Tier == "thorough" || c.search {
+	if c.big() {
 		n = 20000
 	}
 	for i := 0; i < n; i++ {
@@ -911,7 +915,7 @@ func (c *codecRun) extensions() {
 
 func (c *codecRun) cacheKeys() {
 	n := 60
-	if c.o.Tier == "thorough" || c.search {
+	if c.big() {
 		n = 2000
 	}
 	for i := 0; i < n; i++ {
@@ -1024,7 +1028,7 @@ func (c *codecRun) checkPath(p string, class string) {
 }
 
 func (c *codecRun) tilePaths() {
-	thorough := c.o.Tier == "thorough" || c.search
+	thorough := c.big()
 	ns := []int64{0, 1, 9, 10, 99, 100, 999, 1000, 1001, 999999, 1000000, 1000001, 1 << 40, 1<<40 - 1, 999999999, 1000000000,
 		999999999999999999, 1000000000000000000, math.MaxInt64 - 1, math.MaxInt64}
 	ws := []int{1, 2, 9, 10, 99, 100, 127, 128, 254, 255, 256}
